@@ -9,6 +9,7 @@ open Gossamer Gossamer.C22 Gossamer.C22.Sim
      fgthr <total>                                       threshold(total) on uint64
      fgset <w1,w2,…>                                     NewVoterSet: total weight and threshold
      fgfin <w1,w2,…> <k>                                 a Round in which the first k voters vote for one block
+     fgrnd w=<w1,..> tree=<..>|pv v b;pc v b;…            a Round with weighted voters over a tree
    output: see the harness; `spec=`/`kf=` are added when a decision of the code is outside the abstract rule -/
 
 /-- a canonical decimal (what Go's `s == strconv.Itoa(v)` accepts) -/
@@ -33,7 +34,7 @@ def parseByz? (s : String) : Option (List Nat) :=
   else
     let parts := s.splitOn ","
     let bs := parts.filterMap num?
-    if bs.length ≠ parts.length || bs.any (· > 9) || bs.eraseDups.length ≠ bs.length then none
+    if bs.length ≠ parts.length || bs.any (· > 15) || bs.eraseDups.length ≠ bs.length then none
     else some bs
 
 def parseHeader? (h : String) : Option Cfg :=
@@ -48,11 +49,20 @@ def parseHeader? (h : String) : Option Cfg :=
     | some ns, some bs, some ts =>
       match num? ns, parseByz? bs, parseTree? ts with
       | some n, some byz, some ps =>
-        if 1 ≤ n && n ≤ 10 && byz.all (· < n) then some ⟨n, byz, ps⟩ else none
+        if 1 ≤ n && n ≤ 12 then some ⟨n, byz, ps⟩ else none
       | _, _, _ => none
     | _, _, _ => none
 
-def parseOp? (c : Cfg) (o : String) : Option Op :=
+/-- `v1,v4,…`: distinct keys ≤ 15, the honest ones among the initial voters -/
+def parseKeys? (c : Cfg) (s : String) : Option (List Nat) :=
+  let parts := s.splitOn ","
+  let ks := parts.filterMap (tagged? 'v')
+  if ks.length ≠ parts.length || ks.any (· > 15) || ks.eraseDups.length ≠ ks.length
+      || ks.any (fun k => !c.byz.contains k && k ≥ c.n) || ks.length < 1 || ks.length > 12 then none
+  else some ks
+
+/-- `sets` = the voter lists defined so far in the schedule -/
+def parseOp? (c : Cfg) (sets : List (List Nat)) (o : String) : Option Op :=
   let honest? (s : String) : Option Nat :=
     match tagged? 'v' s with
     | some i => if i < c.n && !c.byz.contains i then some i else none
@@ -61,6 +71,9 @@ def parseOp? (c : Cfg) (o : String) : Option Op :=
     match tagged? 'b' s with
     | some k => if k < c.size then some k else none
     | none => none
+  let scripted (j t : Nat) : Bool :=
+    c.byz.contains j || (match sets[t]? with | some mem => !mem.contains j | none => false)
+  let stage? (st : String) : Option Nat := if st == "pv" then some 0 else if st == "pc" then some 1 else none
   match words o with
   | ["best", v, b] => match honest? v, block? b with
     | some i, some k => some (.best i k)
@@ -68,16 +81,37 @@ def parseOp? (c : Cfg) (o : String) : Option Op :=
   | ["pv", v] => (honest? v).map .pv
   | ["pc", v] => (honest? v).map .pc
   | ["fin", v] => (honest? v).map .fin
+  | ["chg", b, ids] => match block? b, parseKeys? c ids with
+    | some k, some ks => if sets.length < 8 then some (.chg k ks) else none
+    | _, _ => none
   | ["bv", st, v, r, b] =>
-    match (if st == "pv" then some 0 else if st == "pc" then some 1 else none),
-          tagged? 'v' v, tagged? 'r' r, block? b with
+    match stage? st, tagged? 'v' v, tagged? 'r' r, block? b with
     | some s, some j, some q, some k =>
-      if j < c.n && c.byz.contains j && q ≤ 20 then some (.bv s j q k) else none
+      if j ≤ 15 && scripted j 0 && q ≤ 20 then some (.bv s j 0 q k) else none
     | _, _, _, _ => none
+  | ["bv", st, v, t, r, b] =>
+    match stage? st, tagged? 'v' v, tagged? 's' t, tagged? 'r' r, block? b with
+    | some s, some j, some tt, some q, some k =>
+      if j ≤ 15 && tt ≤ 20 && scripted j tt && q ≤ 20 then some (.bv s j tt q k) else none
+    | _, _, _, _, _ => none
   | ["d", m, v] => match tagged? 'm' m, honest? v with
     | some id, some i => if id < 1000 then some (.d id i) else none
     | _, _ => none
   | _ => none
+
+/-- parse the ops in order, keeping track of the sets that `chg` ops define -/
+def parseOps? (c : Cfg) : List String → List (List Nat) → Option (List Op)
+  | [], _ => some []
+  | o :: rest, sets =>
+    match parseOp? c sets o with
+    | none => none
+    | some op =>
+      let sets' := match op with
+        | .chg _ ids => sets ++ [ids]
+        | _ => sets
+      match parseOps? c rest sets' with
+      | some ops => some (op :: ops)
+      | none => none
 
 def trim (s : String) : String := String.ofList (s.toList.dropWhile (· == ' ') |>.reverse |>.dropWhile (· == ' ') |>.reverse)
 
@@ -91,9 +125,9 @@ def schedule (line : String) : String :=
       let opStrs := if trim body == "" then [] else body.splitOn ";"
       if opStrs.length > 600 then "bad-op"
       else
-        let ops := opStrs.filterMap (parseOp? c)
-        if ops.length ≠ opStrs.length then "bad-op"
-        else
+        match parseOps? c opStrs [List.range c.n] with
+        | none => "bad-op"
+        | some ops =>
           let r := run c ops
           if r.spec == r.model then r.model
           else match r.kf with
@@ -125,6 +159,65 @@ def fgfin (s ks : String) : String :=
         let r := if fgSuper total w then "A" else "-"
         s!"{total} {thrFG64 total} {w} fin={r} ghost={r}"
 
+/-- a finality-grandpa Round with weighted voters over a tree: the prevote-GHOST, the finalised block, the estimate
+    and completability, computed with the predicates of the abstract model (`hasSuper`, `possibleW`) -/
+def fgrnd (line : String) : String :=
+  match line.splitOn "|" with
+  | [h, body] =>
+    match words h with
+    | ["fgrnd", wtok, ttok] =>
+      if !(wtok.startsWith "w=") || !(ttok.startsWith "tree=") then "bad-op"
+      else
+        let wparts := (String.ofList (wtok.toList.drop 2)).splitOn ","
+        let ws := wparts.filterMap num?
+        match parseTree? (String.ofList (ttok.toList.drop 5)) with
+        | none => "bad-op"
+        | some ps =>
+          if ws.length ≠ wparts.length || ws.length > 64 || ws.any (· ≥ 4294967296) then "bad-op"
+          else
+            let opStrs := if trim body == "" then [] else body.splitOn ";"
+            let ops := opStrs.filterMap (fun o => match words o with
+              | [st, v, b] => match (if st == "pv" then some false else if st == "pc" then some true else none),
+                                    num? v, num? b with
+                | some pc, some vi, some bi => if vi < ws.length && bi ≤ ps.length then some (pc, vi, bi) else none
+                | _, _, _ => none
+              | _ => none)
+            if ops.length ≠ opStrs.length || ops.length > 200 then "bad-op"
+            else
+              let total := ws.foldl (· + ·) 0
+              if total == 0 then "nil"
+              else
+                let ids := (List.range ws.length).filter (fun i => ws.getD i 0 > 0)
+                let vs : Voters := ⟨ids, fun i => ws.getD i 0, fun _ => false⟩
+                let O := parentOrder ps
+                let member (p : Bool × Nat × Nat) : Bool := ids.contains p.2.1
+                let pvs : Votes Nat := (ops.filter (fun p => !p.1 && member p)).map (fun p => (p.2.1, p.2.2))
+                let pcs : Votes Nat := (ops.filter (fun p => p.1 && member p)).map (fun p => (p.2.1, p.2.2))
+                let tol := total - thrFG total
+                if vs.weight (equivocates pvs) > tol || vs.weight (equivocates pcs) > tol then "eqv"
+                else
+                  let size := ps.length + 1
+                  let deepest (l : List Nat) : Option Nat := match l with
+                    | [] => none
+                    | b :: rest => some (rest.foldl (fun hi x => if depth ps hi < depth ps x then x else hi) b)
+                  match deepest ((List.range size).filter (fun b => decide (hasSuper vs O pvs b))) with
+                  | none => "ghost=- fin=- est=- comp=-"
+                  | some g =>
+                    let chain := (List.range (g + 1)).map (fun k => up ps k g)
+                    if fgSuper total (vs.weight (voted pcs)) then
+                      let fin := match chain.find? (fun x => decide (hasSuper vs O pcs x)) with
+                        | some x => s!"b{x}" | none => "-"
+                      let e := chain.find? (fun x => possibleW vs O pcs x)
+                      let children := (List.range size).filter (fun x => x != g && x != 0 && par ps x == g)
+                      let comp := match e with
+                        | some x => x != g || children.all (fun x => !possibleW vs O pcs x)
+                        | none => false
+                      let es := match e with | some x => s!"b{x}" | none => "-"
+                      s!"ghost=b{g} fin={fin} est={es} comp={if comp then "T" else "F"}"
+                    else s!"ghost=b{g} fin=- est=- comp=-"
+    | _ => "bad-op"
+  | _ => "bad-op"
+
 def step (line : String) : String :=
   match words line with
   | ["thr", n] => match num? n with
@@ -135,6 +228,6 @@ def step (line : String) : String :=
     | none => "bad-op"
   | ["fgset", s] => fgset s
   | ["fgfin", s, k] => fgfin s k
-  | _ => schedule line
+  | _ => if line.startsWith "fgrnd " then fgrnd line else schedule line
 
 def main : IO Unit := runDriver step
